@@ -168,6 +168,27 @@ def _const_ids(f):
     return out
 
 
+_QCACHE = {}
+
+
+def _has_quant(f):
+    i = f.get_id()
+    if i not in _QCACHE:
+        found, seen, todo = False, set(), [f]
+        while todo and not found:
+            t = todo.pop()
+            j = t.get_id()
+            if j in seen:
+                continue
+            seen.add(j)
+            if z3.is_quantifier(t):
+                found = True
+            elif z3.is_app(t):
+                todo.extend(t.arg(k) for k in range(t.num_args()))
+        _QCACHE[i] = found
+    return _QCACHE[i]
+
+
 def _alpha_key(f):
     """A key that identifies quantified facts up to the names of their bound variables."""
     if z3.is_quantifier(f):
@@ -183,6 +204,8 @@ class State:
         self.pc = []
         self.glob = []          # global facts (well-typedness of the heap), never captured as guards
         self.glob_keys = set()
+        self.glob_seen = set()
+        self.typed_seen = set()
         self.handling = []      # stack of exceptions currently being handled (for bare `raise`)
 
 
@@ -200,6 +223,15 @@ class Engine:
         self._funcs = {}
         self._consts_cache = {}
         self.warnings = []
+        # register every repo exception class up front so that subclass sets (and class ids) are static
+        from .contract import ClassDecl
+        for cname in sorted(self.exc.parents):
+            if cname not in self.reg.classes:
+                bases = [b.split(".")[-1] for b in self.exc.parents[cname]]
+                bases = [b for b in bases if b in self.exc.parents or b in self.reg.classes]
+                self.reg.classes[cname] = ClassDecl(cname, bases=bases or ["BaseException"], exception=True)
+        for cname in sorted(self.reg.classes):
+            self.class_id(cname)
 
     # ----------------------------------------------------------------- classes
     def class_id(self, name):
@@ -301,10 +333,12 @@ class Engine:
     def feasible(self, extra):
         if not self.prune:
             return True
+        # cheap pruning only: the quantifier-free part of the path condition
         s = z3.Solver()
         s.set("timeout", self.FEAS_TIMEOUT_MS)
-        s.add(*self.st.glob)
-        s.add(*self.st.pc)
+        for p in self.st.pc:
+            if not _has_quant(p):
+                s.add(p)
         s.add(extra)
         return s.check() != z3.unsat
 
@@ -330,8 +364,11 @@ class Engine:
     def assume_global(self, f):
         """A fact about the well-typedness of the heap: universally closed over the bound variables in scope and
         kept outside the path condition proper, so that it never ends up as the guard of an implication."""
-        f = z3.simplify(f)
-        if z3.is_true(f):
+        fid = (f.get_id(), tuple(b.get_id() for b in self.bound_stack))
+        if fid in self.st.glob_seen:
+            return
+        self.st.glob_seen.add(fid)
+        if z3.is_true(z3.simplify(f)):
             return
         if self.bound_stack:
             ids = _const_ids(f)
@@ -410,7 +447,13 @@ class Engine:
         """Well-typedness facts about a value just read from the heap / received from outside."""
         t_ = v.ty
         k = t_.kind
+        if k in ("int", "bool", "str", "float", "bytes", "none", "val", "tuple", "arr", "any"):
+            return
         if (self.spec_depth or self.quant_depth) and not getattr(self, "_collecting", False):
+            tk = (v.t.get_id(), t_, tuple(b.get_id() for b in self.bound_stack))
+            if tk in self.st.typed_seen:
+                return
+            self.st.typed_seen.add(tk)
             # inside a specification: type facts are global well-typedness facts, not guards
             with_alloc = False
             self._collecting = True
@@ -681,7 +724,8 @@ class Engine:
             return self.coerce(V(inner, T.opt_val(v.ty, v.t)), t_)
         if v.ty.kind == "ref" and t_.kind == "ref":
             return V(t_, v.t)      # static up/down-cast; dynamic class is tracked by typeof
-        if v.ty.kind in ("list", "seq") and t_.kind in ("list", "seq") and v.ty.kind == t_.kind and sort_of(v.ty.elem) == sort_of(t_.elem):
+        if v.ty.kind in ("list", "seq") and t_.kind in ("list", "seq") and v.ty.kind == t_.kind and sort_of(v.ty.elem) == sort_of(t_.elem) \
+                and v.ty.region == t_.region:
             return V(t_, v.t)
         if v.ty.kind == "any" and t_.is_reflike:
             return V(t_, v.t)
@@ -689,7 +733,7 @@ class Engine:
             return V(t_, z3.If(v.t, z3.IntVal(1), z3.IntVal(0)))
         if v.ty.kind == "enum" and t_.kind in ("enum", "int"):
             return V(t_, v.t)
-        if sort_of(v.ty) == sort_of(t_) and v.ty.kind == t_.kind:
+        if sort_of(v.ty) == sort_of(t_) and v.ty.kind == t_.kind and v.ty.region == t_.region:
             return V(t_, v.t)
         raise Unsupported("cannot coerce %r to %r" % (v.ty, t_))
 
